@@ -221,10 +221,25 @@ class Oracle:
     def defuzzified(self, ov, contributions):
         """raw defuzzified value of the oracle's own contribution set (before the lock/default cascade)"""
         fl = self.fl
-        if isinstance(ov.defuzzifier, fl.IntegralDefuzzifier):
-            return ov.defuzzifier.defuzzify(make_own_set(fl, ov.aggregation, contributions), ov.minimum, ov.maximum)
+        dz = fresh_defuzzifier(fl, ov.defuzzifier)
+        if isinstance(dz, fl.IntegralDefuzzifier):
+            return dz.defuzzify(make_own_set(fl, ov.aggregation, contributions), ov.minimum, ov.maximum)
         fresh = fl.Aggregated(ov.name, ov.minimum, ov.maximum, ov.aggregation, [fl.Activated(t, d, i) for t, d, i in contributions])
-        return ov.defuzzifier.defuzzify(fresh, ov.minimum, ov.maximum)
+        return dz.defuzzify(fresh, ov.minimum, ov.maximum)
+
+
+def fresh_defuzzifier(fl, dz):
+    """a newly constructed defuzzifier of the same class and declared parameters: whatever the engine's own object has seen
+    before (another output variable, an earlier step) is not part of the reference value"""
+    try:
+        if type(dz).__module__ == fl.defuzzifier.__name__:
+            if isinstance(dz, fl.IntegralDefuzzifier):
+                return type(dz)(int(dz.resolution))
+            if isinstance(dz, fl.WeightedDefuzzifier):
+                return type(dz)(dz.type)
+    except Exception:
+        pass
+    return dz
 
 
 def from_spec(tree):
